@@ -229,4 +229,86 @@ def validateX (X : SchemaX) (C : XCons) (o : VOpts) (t : List DNode) : VResult :
     let out := r1.2 ++ r2.2 ++ r3.2 ++ rw.2 ++ ol ++ r4.2
     { tree := r4.1, log := out.items }
 
+/-! ## without XPath-dependent statements nothing changes -/
+
+theorem nodeChecksX_nil (S : Schema) (C : XCons) (hm : C.musts = []) (o : VOpts) (cx : Cx) (D : XDocs) :
+    ∀ (rest before : List DNode) (na nc : Nat), nodeChecksX S C o cx D na nc before rest = nodeChecks S o cx before rest := by
+  intro rest
+  induction rest with
+  | nil => intro before na nc; unfold nodeChecksX nodeChecks; rfl
+  | cons n ns ih =>
+    intro before na nc
+    unfold nodeChecksX nodeChecks
+    have h0 : C.mustsOf n.sid = [] := by unfold XCons.mustsOf; rw [hm]; rfl
+    rw [ih, h0]
+    unfold mustOut
+    simp only [ite_self]
+
+theorem levelChecksX_nil (X : SchemaX) (C : XCons) (hm : C.musts = []) (o : VOpts) (cx : Cx) (D : XDocs) (na nc : Nat)
+    (sibs : List DNode) : levelChecksX X C o cx D na nc sibs = levelChecks X o cx sibs := by
+  unfold levelChecksX levelChecks
+  rw [nodeChecksX_nil X.base C hm]
+
+mutual
+theorem finalNodeX_nil (X : SchemaX) (C : XCons) (hm : C.musts = []) (o : VOpts) (cx : Cx) (D : XDocs) :
+    ∀ (n : DNode) (na nc : Nat) (before : List DNode), finalNodeX X C o cx D na nc before n = finalNode X o cx before n
+  | .inner s f m ks, na, nc, before => by
+    unfold finalNodeX finalNode
+    dsimp only
+    rw [levelChecksX_nil X C hm, finalKidsX_nil X C hm o _ D ks]
+  | .term s f m v, na, nc, before => by
+    unfold finalNodeX finalNode
+    rfl
+theorem finalKidsX_nil (X : SchemaX) (C : XCons) (hm : C.musts = []) (o : VOpts) (cx : Cx) (D : XDocs) :
+    ∀ (ns : List DNode) (na nc : Nat) (before : List DNode), finalKidsX X C o cx D na nc before ns = finalKids X o cx before ns
+  | [], _, _, _ => by unfold finalKidsX finalKids; rfl
+  | n :: ns, na, nc, before => by
+    unfold finalKidsX finalKids
+    dsimp only
+    rw [finalNodeX_nil X C hm o cx D n, finalKidsX_nil X C hm o cx D ns]
+end
+
+/-- without `must` statements `finalRX` is `finalR` -/
+theorem finalRX_nil (X : SchemaX) (C : XCons) (hm : C.musts = []) (o : VOpts) (cx : Cx) (T : List DNode) :
+    finalRX X C o cx T = finalR X o cx T := by
+  unfold finalRX finalR
+  dsimp only
+  rw [levelChecksX_nil X C hm, finalKidsX_nil X C hm]
+
+mutual
+theorem lrefN_nil (S : Schema) (C : XCons) (hl : C.leafrefs = []) (d : XPath.Doc) :
+    ∀ (n : DNode) (cx : Cx) (num : Nat) (before : List DNode), lrefN S C cx d num before n = []
+  | .inner s f m ks, cx, num, before => by
+    unfold lrefN
+    exact lrefL_nil S C hl d ks _ _ _
+  | .term s f m v, cx, num, before => by
+    unfold lrefN
+    have : C.lrefOf s = none := by unfold XCons.lrefOf; rw [hl]; rfl
+    rw [this]
+theorem lrefL_nil (S : Schema) (C : XCons) (hl : C.leafrefs = []) (d : XPath.Doc) :
+    ∀ (ns : List DNode) (cx : Cx) (num : Nat) (before : List DNode), lrefL S C cx d num before ns = []
+  | [], _, _, _ => by unfold lrefL; rfl
+  | n :: ns, cx, num, before => by
+    unfold lrefL
+    rw [lrefN_nil S C hl d n, lrefL_nil S C hl d ns]
+    rfl
+end
+
+theorem lrefPhase_nil (X : SchemaX) (C : XCons) (hl : C.leafrefs = []) (cx : Cx) (T : List DNode) : lrefPhase X C cx T = {} := by
+  unfold lrefPhase
+  rw [lrefL_nil X.base C hl]
+  rfl
+
+/-- **without `must` and leafref statements `validateX` is `validate`** -/
+theorem validateX_nil (X : SchemaX) (C : XCons) (hm : C.musts = []) (hl : C.leafrefs = []) (o : VOpts) (t : List DNode) :
+    validateX X C o t = validate X o t := by
+  unfold validateX validate
+  split
+  · rfl
+  · dsimp only
+    unfold whenPhase
+    dsimp only
+    rw [lrefPhase_nil X C hl, finalRX_nil X C hm]
+    simp only [Out.append_empty]
+
 end LyModel.Valid
